@@ -398,7 +398,9 @@ func tryBuildLimit(c LimitCfg, reg core.MetricRegistry) (built, error) {
 
 // debugDiscardLogger: a limit.Logger with debug output enabled; the formatted text is built and dropped.
 // wrappedMinimum is a caller's measurement type with the meaning of the library's minimum (it delegates to one).
-type wrappedMinimum struct{ m measurements.MinimumMeasurement }
+type wrappedMinimum struct {
+	m measurements.MinimumMeasurement
+}
 
 func (w *wrappedMinimum) Add(v float64) (float64, bool)  { return w.m.Add(v) }
 func (w *wrappedMinimum) Get() float64                   { return w.m.Get() }
